@@ -259,7 +259,9 @@ def wfEx (e : Option Ex) : Bool :=
 
 def wfMetric (f : Family) (m : Metric) : Bool :=
   let excl := [kwName, kwTypeL, kwUnitL] ++ (if f.typ.kind == .h then [kwLe] else []) ++ (if f.typ.kind == .s then [kwQuantile] else [])
-  wfLabels excl m.lbls && wfEx m.ex && m.buckets.all (fun b => wfEx b.ex)
+  wfLabels excl m.lbls && wfEx m.ex && m.buckets.all (fun b => wfEx b.ex) &&
+  -- a +Inf bucket ends the bucket list (the protobuf parser stops at it)
+  m.buckets.dropLast.all (fun b => b.ub != posInf)
 
 def wfFamily (om : Bool) (f : Family) : Bool :=
   !f.name.isEmpty && goodStr f.name && !f.ms.isEmpty && !hasSuffix f.name kwCreated &&
@@ -326,9 +328,16 @@ def checkStream (fs : List Family) (parser src : String) (tu skip st : Bool) (ou
           | .histogram => kw "histogram" | .gaugehistogram => kw "gaugehistogram")]
     else wantMeta
   if gotMeta != wantMeta then
-    if fs.any (fun f => f.name.any isEscapable) then some s!"violation roundtrip kind=meta-name-escaped {ctx}"
-    else if parser == "text" && fs.any (fun f => match f.help with | some h => !h.isEmpty && h.all isWs | none => false) then
-      some s!"violation roundtrip kind=text-help-whitespace-only {ctx}"
+    -- explained deviations (each a known finding, reported under its own signature)
+    let wsOnly (h : Bytes) : Bool := !h.isEmpty && h.all isWs
+    let escName (m : Meta) : Meta := match m with
+      | .typ n t => .typ (escQuoted n) t | .help n t => .help (escQuoted n) t | .unit n t => .unit (escQuoted n) t
+    let wsHelp (m : Meta) : Meta := match m with
+      | .help n t => if wsOnly t then .help n [] else m
+      | _ => m
+    if parser != "proto" && gotMeta == wantMeta.map escName then some s!"violation roundtrip kind=meta-name-escaped {ctx}"
+    else if parser == "text" && gotMeta == wantMeta.map wsHelp then some s!"violation roundtrip kind=text-help-whitespace-only {ctx}"
+    else if parser == "text" && gotMeta == (wantMeta.map wsHelp).map escName then some s!"violation roundtrip kind=meta-name-escaped {ctx}"
     else some s!"violation roundtrip kind=metadata {ctx}"
   else
   let got0 : List XS := ents.filterMap fun e => match e with | .series x => some (stripTU x) | _ => none
@@ -339,8 +348,12 @@ def checkStream (fs : List Family) (parser src : String) (tu skip st : Bool) (ou
   let w := sortXS want
   let proj (f : XS → XS) (l : List XS) := l.map f
   if proj (fun x => { x with ex := none, st := 0 }) g != proj (fun x => { x with ex := none, st := 0 }) w then
-    if sortXS (proj (fun x => { x with ex := none, st := 0, ts := none }) g) == sortXS (proj (fun x => { x with ex := none, st := 0, ts := none }) w) then
-      (if omText then some s!"violation roundtrip kind=om-timestamp-precision {ctx}" else some s!"violation roundtrip kind=timestamp {ctx}")
+    -- OpenMetrics carries milliseconds as float seconds and the parser truncates `ts * 1000`
+    let viaFloat (x : XS) : XS := { x with ex := none, st := 0, ts := x.ts.map fun t => mul1000ToInt (divConst (intToF64 t) 1000) }
+    if omText && sortXS (proj (fun x => { x with ex := none, st := 0 }) g) == sortXS (proj viaFloat w) then
+      some s!"violation roundtrip kind=om-timestamp-precision {ctx}"
+    else if sortXS (proj (fun x => { x with ex := none, st := 0, ts := none }) g) == sortXS (proj (fun x => { x with ex := none, st := 0, ts := none }) w) then
+      some s!"violation roundtrip kind=timestamp {ctx}"
     else some s!"violation roundtrip kind=series n-got={g.length} n-want={w.length} {ctx}"
   else if proj (fun x => { x with st := 0 }) g != proj (fun x => { x with st := 0 }) w then
     if proj (fun x => { x with st := 0 }) g == proj (fun x => { x with st := 0, ex := escEx x.ex }) w then
